@@ -75,10 +75,9 @@ func (i *EncryptedSSHIdentity) Recipient() age.Recipient {
 // any of the stanzas match the public key, it will request the passphrase. The
 // decrypted private key will be cached after the first successful invocation.
 func (i *EncryptedSSHIdentity) Unwrap(stanzas []*age.Stanza) (fileKey []byte, err error) {
-	if i.decrypted != nil {
-		return i.decrypted.Unwrap(stanzas)
-	}
-
+	// Whether the file is addressed to this identity is decided in the same way
+	// before and after the private key has been decrypted and cached, so that
+	// the outcome for a given file does not depend on earlier calls.
 	var match bool
 	for _, s := range stanzas {
 		if s.Type != i.pubKey.Type() {
@@ -95,6 +94,10 @@ func (i *EncryptedSSHIdentity) Unwrap(stanzas []*age.Stanza) (fileKey []byte, er
 	}
 	if !match {
 		return nil, age.ErrIncorrectIdentity
+	}
+
+	if i.decrypted != nil {
+		return i.decrypted.Unwrap(stanzas)
 	}
 
 	passphrase, err := i.passphrase()
